@@ -451,8 +451,10 @@ def check_rest(ctx, fx, cfg):
     ctx.require(not md, "R02.4", "no-manually-drop-field@" + cfg, "ManuallyDrop inside a crate type: %s" % md[:2], site="crate")
     # R02.5 error discipline
     n_res = 0
+    import inline
     for f in fx.d["fns"]:
-        b = ctx.body(fx, f)
+        # (crate-private helpers inlined: a result handed to `outcome.into_actor()` is consumed by what that helper does with it)
+        b = inline.body(ctx, fx, f, inline.not_public)
         vals = []
         for bi, t in b.normal_calls():
             d = t.get("destty") or ""
